@@ -811,6 +811,9 @@ class Fn:
         if k == 'const':
             if 'bytes' in op:
                 return ('bytes', op['bytes'], op['ty'], op.get('name'))
+            if 'ints' in op:
+                # a constant array of integers used by value: the same thing as the array literal
+                return ('agg', 'array', tuple(('const', v_, None, op.get('ety')) for v_ in op['ints']))
             if 'promoted' in op:
                 return self._promoted(op['promoted'])
             if 'fn' in op:
@@ -888,6 +891,10 @@ class Fn:
         if m and len(args) == 1 and m.group(1) in INT_W and m.group(2) in INT_W:
             return ('cast', 'IntToInt', args[0], m.group(2), m.group(1))     # lossless integer widening
         name = decl if decl in PURE_FNS or decl in TRANSPARENT or decl in UNWRAPS else callee
+        m = re.match(r'^core::net::ip_addr::<impl std::convert::From<std::net::Ipv([46])Addr> for (u32|u128)>::from$', callee)
+        if m:
+            # address -> integer: a real conversion (big-endian octets), not a transparent From
+            return ('call', '<%s as std::convert::From<std::net::Ipv%sAddr>>::from' % (m.group(2), m.group(1)), args, None)
         # keep trait-declared name for well-known std traits so tables stay small
         if is_pure_getter(name) or is_pure_getter(callee):
             return ('call', name, args, None)
@@ -1126,6 +1133,7 @@ class Facts:
         # std Option/Result combinators are expanded into the `match` they stand for (vlib/combinators.py)
         from . import combinators as _cmb
         self.expanded = _cmb.run(self.d['fns'])
+        self.bool_selects = _cmb.bool_selects(self.d['fns'])
         self.anchors = _inl.load_anchors()
         il = _inl.Inliner(self.d['fns'], self.anchors)
         self.d['fns'] = il.run()
@@ -1149,7 +1157,8 @@ class Facts:
         self._cg = None
         self.closures_of = collections.defaultdict(list)
         for f in self.d['fns']:
-            if f['kind'] == 'Closure':
+            if f['kind'] == 'Closure' and f['id'] not in self.inlined_helpers:
+                # (a closure whose every use was an inlined invocation lives on only inside its callers)
                 self.closures_of[f['parent']].append(f['id'])
         # impls by trait method name
         self.impls = collections.defaultdict(list)   # (trait, method) -> [fn ids]
@@ -1456,7 +1465,7 @@ def _binop(op, a, b, w):
 
 
 def eval_region(fn, entry, env, max_steps=2000, stop_at=None, menv=None, assume_asserts=False, until_assert=None,
-                read_hook=None, skip_calls=False, track_mem=False):
+                read_hook=None, skip_calls=False, track_mem=False, call_hook=None):
     """Concretely evaluate MIR from block `entry` with env {local: int|tuple}.
     Only pure integer statements, switches, gotos and asserts are interpreted; the first
     other terminator ends the region.  Returns (kind, block, env):
@@ -1503,6 +1512,18 @@ def eval_region(fn, entry, env, max_steps=2000, stop_at=None, menv=None, assume_
                 return menv[k]
         if not pr:
             return env[l]
+        if len(pr) >= 2 and isinstance(pr[0], dict) and 'downcast' in pr[0] and isinstance(pr[1], dict) and 'f' in pr[1]:
+            # payload of an enum value built by a modelled call: ('#variant', idx, (fields..))
+            v_ = env.get(l)
+            if isinstance(v_, tuple) and len(v_) == 3 and v_[0] == '#variant' and v_[1] == pr[0]['v'] and pr[1]['i'] < len(v_[2]):
+                pv_ = v_[2][pr[1]['i']]
+                if len(pr) == 2:
+                    return pv_
+                if pr[2:] == ['deref'] and isinstance(pv_, tuple) and pv_[0] == '#ptr':
+                    return pv_[1]
+            raise KeyError(('payload', l))
+        if pr == ['deref'] and isinstance(env.get(l), tuple) and env[l][:1] == ('#ptr',):
+            return env[l][1]
         if pr == ['deref']:
             if l in refs:
                 return env[refs[l]]
@@ -1623,7 +1644,7 @@ def eval_region(fn, entry, env, max_steps=2000, stop_at=None, menv=None, assume_
                     v_ = rd_place(rv['place'])
                     if isinstance(v_, int):
                         env[l] = v_
-                    elif isinstance(v_, tuple) and len(v_) == 2 and v_[0] == '#variant':
+                    elif isinstance(v_, tuple) and len(v_) in (2, 3) and v_[0] == '#variant':
                         env[l] = v_[1]
                     else:
                         env.pop(l, None)
@@ -1670,6 +1691,16 @@ def eval_region(fn, entry, env, max_steps=2000, stop_at=None, menv=None, assume_
         elif t['k'] == 'call' and skip_calls and t['target'] >= 0:
             modelled = False
             callee = (t['resolved'] or [t['callee']])[0]
+            if call_hook is not None and not t['dest']['p']:
+                try:
+                    hv_ = call_hook(t, env, rd)
+                except (KeyError, TypeError):
+                    hv_ = None
+                if hv_ is not None:
+                    env[t['dest']['l']] = hv_
+                    refs.pop(t['dest']['l'], None)
+                    bi = t['target']
+                    continue
             for rx, fnm in CALL_MODELS:
                 if re.search(rx, callee) and not t['dest']['p']:
                     try:
